@@ -107,7 +107,7 @@ def real_case(ctx, sc, tag, fork):
     o = realrun.run_real(sc, ctx.tmp, timeout=sc.get('timeout', 1), fork_on_hang=fork)
     ctx.evaluations += 1
     ctx.count('real-pool:' + tag + (':fork' if fork else ''))
-    if o.tmp_listing:
+    if o.tmp_listing and not sc.get('cfg', {}).get('save_temps'):
         ctx.violation('tmpdir-leak:real', f'real pool: TMPDIR holds {o.tmp_listing} after the run', {'scenario': sc, 'kind': 'real', 'fork': fork})
     if o.alive:
         ctx.violation('process-leak', f'real pool: pids {o.alive} still alive after the run', {'scenario': sc, 'kind': 'real', 'fork': fork})
@@ -244,6 +244,13 @@ def explore(ctx):
     if not any(p['code'] for p in o.passes):
         ctx.broke('harness', 'error-exit-hangs scenario', 'the run did not end by an error')
     late_starters(ctx)
+    # ... with --save-temps (the folders are kept on purpose; the processes are not)
+    sc_st = dict(ERROR_EXIT_HANGS[1], cfg=dict(ERROR_EXIT_HANGS[1]['cfg'], save_temps=True))
+    o = realrun.run_real(sc_st, ctx.tmp, timeout=sc_st.get('timeout', 1))
+    ctx.evaluations += 1
+    ctx.count('real-pool:error-exit-hangs:save-temps')
+    if o.alive:
+        ctx.violation('process-leak', f'real pool, --save-temps, pass run ended by an error: pids {o.alive} still alive after the run', {'scenario': sc_st, 'kind': 'real', 'fork': False})
     # ... and while the hanging tests keep writing files into their directories
     o = real_case(ctx, dict(ERROR_EXIT_HANGS[1], hang_writes=True), 'error-exit-hangs-writing', False)
     if not any(p['code'] for p in o.passes):
